@@ -7,6 +7,7 @@ CONSTANTS
   MaxT6 = 1
   MaxPk = 5
   RRs = {"cpr0"}
+  SecondConn = FALSE
   ScopeSensitive = FALSE
   Faults = {"wfail", "rexit", "dialfail", "tick"}
 VIEW View
